@@ -129,8 +129,10 @@ theorem table_accesses_guarded :
     unguardedIn ["agent", "socks", "handlers", "server", "service"] ["SocksCli", "SocksSvr", "PortFwds"] = [] := by decide
 
 /-! non-vacuity -/
-example : unguarded ["SocksCli"] [.lock "a.SocksCliMtx", .access "SocksCli", .unlock "a.SocksCliMtx", .access "SocksCli"]
+example : unguarded ["SocksCli"] [.lock "a.SocksCliMtx", .access "a.SocksCli", .unlock "a.SocksCliMtx", .access "a.SocksCli"]
     = ["SocksCli"] := by decide
+/-- another object's mutex does not count -/
+example : unguarded ["SocksCli"] [.lock "a.SocksCliMtx", .access "b.SocksCli", .unlock "a.SocksCliMtx"] = ["SocksCli"] := by decide
 example : validAddr 3 [] ∧ validAddr 1 [127, 0, 0, 1] := by
   constructor
   · right; right; exact ⟨rfl, by decide⟩
